@@ -45,3 +45,39 @@ mut("C19", "c19-no-truncation-of-context-lines", RP, "truncatedLine := truncateS
 mut("C19", "c19-caret-under-every-line", RP, "if lineNum == position.Line {\n\t\t\t\tbuilder.WriteString(strings.Repeat(\" \", lineNumWidth))", "if lineNum <= position.Line {\n\t\t\t\tbuilder.WriteString(strings.Repeat(\" \", lineNumWidth))")
 mut("C19", "c19-end-clamp-removed-panics", RP, "\tif end >= len(lines) {\n\t\tend = len(lines) - 1\n\t}\n", "")
 mut("C19", "c19-read-error-shows-stale-other-file", RP, "\tif err != nil {\n\t\treturn nil\n\t}", "\tif err != nil {\n\t\tfor _, l := range r.lineCache {\n\t\t\treturn l\n\t\t}\n\t\treturn nil\n\t}")
+
+# ---- C11 ---------------------------------------------------------------
+CC = "src/constructor/checker.go"
+mut("C11", "c11-currentFunction-hoisted-to-package-level", CC, "\tfor file := range filesToCheck {\n\t\tcurrentFunction := \"\"\n", "\tfor file := range filesToCheck {\n\t\tcurrentFunction = \"\"\n")
+mut("C11", "c11-currentFunction-hoisted-to-package-level", CC, "func CheckConstructor(", "var currentFunction string\n\nfunc CheckConstructor(")
+TC = "src/testonly/checker.go"
+mut("C11", "c11-reportedTypes-hoisted-to-package-level", TC, "\t\treportedTypes := make(map[string]bool)\n", "\t\treportedTypes = make(map[string]bool)\n")
+mut("C11", "c11-reportedTypes-hoisted-to-package-level", TC, "// CheckTestOnly checks that", "var reportedTypes map[string]bool\n\n// CheckTestOnly checks that")
+IX = "src/indexing/indexing.go"
+mut("C11", "c11-index-memoised-per-analyzer", IX,
+    "func BuildImmutableTypesIndex[T annotations.AnnotationWrapper](pass *analysis.Pass, packageAnnotations *annotations.PackageAnnotations) util.TypesMap {\n\tresult := util.NewTypesMap()\n",
+    "var immutableIndexCache util.TypesMap\n\nfunc BuildImmutableTypesIndex[T annotations.AnnotationWrapper](pass *analysis.Pass, packageAnnotations *annotations.PackageAnnotations) util.TypesMap {\n\tif immutableIndexCache != nil {\n\t\treturn immutableIndexCache\n\t}\n\tresult := util.NewTypesMap()\n\tdefer func() { immutableIndexCache = result }()\n")
+mut("C11", "c11-importer-reverses-imported-allowlist-in-place", IX,
+    "\t\tfor _, annot := range ann.PackageOnlyAnnotations {\n\t\t\tswitch annot.Kind {",
+    "\t\tfor _, annot := range ann.PackageOnlyAnnotations {\n\t\t\tslices.Reverse(annot.AllowedPackages)\n\t\t\tswitch annot.Kind {")
+mut("C11", "c11-importer-reverses-imported-allowlist-in-place", IX, "import (\n\t\"go/types\"\n\t\"iter\"\n", "import (\n\t\"go/types\"\n\t\"iter\"\n\t\"slices\"\n")
+AN = "src/annotations/annotation.go"
+mut("C11", "c11-ahocorasick-Match-instead-of-Contains", AN, "if !matcher.Contains([]byte(text)) {", "if len(matcher.Match([]byte(text))) == 0 {", 0)
+PR = "src/packageonly/reporting.go"
+mut("C11", "c11-allowed-list-via-map-range", PR,
+    "\tcase codes.PackageOnlyFunctionCall:\n\t\treturn fmt.Sprintf(\"%s function is @packageonly and cannot be used from %s. Allowed packages: %s\",\n\t\t\tv.ItemName, v.CurrentPkgPath, fmt.Sprintf(\"%v\", v.AllowedPackages))",
+    "\tcase codes.PackageOnlyFunctionCall:\n\t\tset := map[string]bool{}\n\t\tfor _, p := range v.AllowedPackages {\n\t\t\tset[p] = true\n\t\t}\n\t\tvar uniq []string\n\t\tfor p := range set {\n\t\t\tuniq = append(uniq, p)\n\t\t}\n\t\treturn fmt.Sprintf(\"%s function is @packageonly and cannot be used from %s. Allowed packages: %s\",\n\t\t\tv.ItemName, v.CurrentPkgPath, fmt.Sprintf(\"%v\", uniq))")
+AZ = "src/analyzer/analyzer.go"
+mut("C11", "c11-config-once-replaced-by-flag", AZ, "\tconfigOnce.Do(func() {", "\tfunc() {\n\t\tif configLoaded {\n\t\t\treturn\n\t\t}\n\t\tconfigLoaded = true")
+mut("C11", "c11-config-once-replaced-by-flag", AZ, "\t\tcachedConfig = config.ParseFlagsFromFlagSet(&pass.Analyzer.Flags)\n\t})", "\t\tcachedConfig = config.ParseFlagsFromFlagSet(&pass.Analyzer.Flags)\n\t}()")
+mut("C11", "c11-config-once-replaced-by-flag", AZ, "\tconfigOnce   sync.Once\n", "\tconfigOnce   sync.Once\n\tconfigLoaded bool\n")
+mut("C11", "c11-config-once-replaced-by-flag", AZ, "func runConfig(", "var _ = &configOnce\n\nfunc runConfig(")
+# (swapping TestonlyAnnotations inside the testonly checker is NOT a break: nobody reads those elements concurrently;
+#  sorting an imported allow-list in place is not one either: the declaring package's own action sorted it first, ordered by the dependency edge)
+mut("C11", "c11-immutable-checker-reverses-shared-constructor-annotations", AZ,
+    "\t// Check immutability violations\n",
+    "\t// newest annotation first (in place)\n\tfor i, j := 0, len(localAnnotations.ConstructorAnnotations)-1; i < j; i, j = i+1, j-1 {\n\t\tlocalAnnotations.ConstructorAnnotations[i], localAnnotations.ConstructorAnnotations[j] = localAnnotations.ConstructorAnnotations[j], localAnnotations.ConstructorAnnotations[i]\n\t}\n\t// Check immutability violations\n")
+mut("C11", "c11-shared-violation-buffer", "src/immutable/checker.go",
+    "\tvar violations []ImmutableViolation\n\n\t// Build indices for efficient lookup during AST traversal",
+    "\tviolations := violationBuf[:0]\n\tdefer func() { violationBuf = violations }()\n\n\t// Build indices for efficient lookup during AST traversal")
+mut("C11", "c11-shared-violation-buffer", "src/immutable/checker.go", "func CheckImmutable(", "var violationBuf []ImmutableViolation\n\nfunc CheckImmutable(")
